@@ -80,6 +80,19 @@ def flax_case(rng, arch, rank):
             "shape": list(shape), "seed": rng.randint(0, 10 ** 6)}
 
 
+def unit_shapes(rng):
+    """Inputs with unit spatial / batch / channel dimensions: only the axes FlaxMap added may go."""
+    w, h, c, k = rng.randint(2, 5), rng.randint(2, 5), rng.choice([2, 3]), rng.choice([2, 3])
+    return [[1, w], [h, 1], [1, 1], [1, w, c], [h, 1, 1], [1, 1, 1], [1, w, 1],
+            [k, 1, w, c], [1, h, w, 1], [1, 1, 1, 1], [1, 1, w, c], [k, h, 1, 1]]
+
+
+def flax_unit_case(rng, arch, shape):
+    channels = 1 if len(shape) == 2 else shape[-1]
+    return {"arch": arch, "depth": 2, "channels": channels, "num_filters": 2, "shape": list(shape),
+            "seed": rng.randint(0, 10 ** 6), "unit_dims": True}
+
+
 _var_cache = {}
 
 
@@ -94,13 +107,18 @@ def run_flax_case(c):
     variables = _var_cache[key]
     r = np.random.RandomState(c["seed"])
     x = jnp.asarray((r.randint(-8, 9, size=c["shape"]) / 4.0).astype(np.float32))
+    canon = {2: (1,) + tuple(c["shape"]) + (1,), 3: (1,) + tuple(c["shape"]), 4: tuple(c["shape"])}[len(c["shape"])]
+    try:
+        yd = model.apply(variables, x.reshape(canon), train=False, mutable=False)
+    except Exception as e:     # noqa: BLE001 - the network itself does not accept this size (e.g. UNet pooling)
+        return {"skip": f"{type(e).__name__}"}
+    if 0 in yd.shape:
+        return {"skip": "network output is empty"}
     rec = RecModel(model)
     y = FlaxMap(rec, variables)(x)
     if len(rec.seen) != 1:
         return {"error": f"model.apply called {len(rec.seen)} times"}
     shp, a, kw = rec.seen[0]
-    canon = {2: (1,) + tuple(c["shape"]) + (1,), 3: (1,) + tuple(c["shape"]), 4: tuple(c["shape"])}[len(c["shape"])]
-    yd = model.apply(variables, x.reshape(canon), train=False, mutable=False)
     return {"received": list(shp), "kwargs": {k: bool(v) for k, v in kw.items()}, "nargs": len(a),
             "net_out": list(yd.shape), "out": list(y.shape),
             "data_equal": bool(np.array_equal(np.asarray(y).ravel(), np.asarray(yd).ravel())),
@@ -113,20 +131,35 @@ def check_flaxmap(ctx):
     combos = [(a, r) for a in ARCHS for r in (2, 3, 4)]
     reps = ctx.n(2, 20)
     items, meta = [], []
-    for a, r in combos:
-        for _ in range(reps):
-            c = flax_case(ctx.rng, a, r)
-            o = run_flax_case(c)
-            ctx.count(f"flaxmap:{a}", c)
-            ctx.dist[f"flaxmap-rank{r}"] = ctx.dist.get(f"flaxmap-rank{r}", 0) + 1
-            if "error" in o:
-                ctx.violation("FlaxMap", "FlaxMap does not call model.apply exactly once", c, observed=o)
-                continue
-            if o["kwargs"] != {"train": False, "mutable": False} or o["nargs"] or not o["data_equal"] or not o["dtype_equal"]:
-                ctx.violation("FlaxMap", "FlaxMap(x) differs from model.apply on the canonical batch (values / dtype / inference-mode keywords)",
-                              c, expected="bit-equal data, train=False, mutable=False", observed=o, oracle="C20_flaxmap_rank2/3/4")
-            items.append(f"({nl(c['shape'])}, {nl(o['received'])}, {nl(o['net_out'])}, {nl(o['out'])})")
-            meta.append((c, o))
+    cases = [flax_case(ctx.rng, a, r) for a, r in combos for _ in range(reps)]
+    us = unit_shapes(ctx.rng)
+    if ctx.quick:       # every unit-dimension shape on one architecture (rotating), UNet tried once
+        cases += [flax_unit_case(ctx.rng, ARCHS[(i + ctx.seed) % 3], sh) for i, sh in enumerate(us)]
+        cases.append(flax_unit_case(ctx.rng, "UNet", [1, 4]))
+    else:
+        cases += [flax_unit_case(ctx.rng, a, sh) for a in ARCHS for sh in us + unit_shapes(ctx.rng)]
+    for c in cases:
+        a, r = c["arch"], len(c["shape"])
+        o = run_flax_case(c)
+        if "skip" in o:
+            ctx.dist["flaxmap:size-not-accepted-by-network"] = ctx.dist.get("flaxmap:size-not-accepted-by-network", 0) + 1
+            continue
+        ctx.count(f"flaxmap:{a}", c)
+        ctx.dist[f"flaxmap-rank{r}"] = ctx.dist.get(f"flaxmap-rank{r}", 0) + 1
+        if c.get("unit_dims"):
+            ctx.dist["flaxmap:unit-dimension-inputs"] = ctx.dist.get("flaxmap:unit-dimension-inputs", 0) + 1
+        if "error" in o:
+            ctx.violation("FlaxMap", "FlaxMap does not call model.apply exactly once", c, observed=o)
+            continue
+        if o["kwargs"] != {"train": False, "mutable": False} or o["nargs"] or not o["data_equal"] or not o["dtype_equal"]:
+            ctx.violation("FlaxMap", "FlaxMap(x) differs from model.apply on the canonical batch (values / dtype / inference-mode keywords)",
+                          c, expected="bit-equal data, train=False, mutable=False", observed=o, oracle="C20_flaxmap_rank2/3/4")
+        if o["net_out"] == o["received"] and o["out"] != c["shape"]:
+            ctx.violation("FlaxMap", "FlaxMap output does not have the shape of its input although the network preserves the "
+                          "shape of the canonical batch (an axis other than the added ones was removed)", c,
+                          expected=c["shape"], observed=o, oracle="C20_flaxmap_rank2/3/4")
+        items.append(f"({nl(c['shape'])}, {nl(o['received'])}, {nl(o['net_out'])}, {nl(o['out'])})")
+        meta.append((c, o))
     for i in eval_cases("C20_flax", "flax_case_ok", items):
         c, o = meta[i]
         ctx.violation("FlaxMap", "axis bookkeeping of FlaxMap.__call__ differs from the model (shape received by the network / axes removed)",
@@ -361,6 +394,79 @@ def check_checkpoints(ctx):
     shutil.rmtree(empty, ignore_errors=True)
 
 
+def only_apply_case(rng, arch):
+    return {"arch": arch, "depth": rng.choice([2, 3]) if arch != "DnCNNNet" else 3, "seed": rng.randint(0, 10 ** 6),
+            "step": rng.randint(1, 50), "n": rng.choice([4, 5, 6]), "batch": 2}
+
+
+def run_only_apply_case(c):
+    """Checkpoint a state whose params AND batch statistics have moved off their initial values,
+    then only_apply(variables=None, checkpointing=True): the variables used must be exactly the
+    saved ones and the output the model applied with the saved variables."""
+    import contextlib
+    import io
+    import jax
+    import jax.numpy as jnp
+    from scico.flax.train.apply import only_apply
+    from scico.flax.train.checkpoints import checkpoint_save
+    from scico.flax.train.learning_rate import create_cnst_lr_schedule
+    from scico.flax.train.state import create_basic_train_state
+    wd = SCR / "only_apply"
+    shutil.rmtree(wd, ignore_errors=True)
+    model = make_model(c["arch"], c["depth"], 1, 2)
+    N, n, b = 8, c["n"], c["batch"]
+    r = np.random.RandomState(c["seed"])
+    x = jnp.asarray((r.randint(-8, 9, size=(n, N, N, 1)) / 4.0).astype(np.float32))
+    conf = {"seed": c["seed"] % 1000, "opt_type": "SGD", "batch_size": b, "base_learning_rate": 1e-3,
+            "checkpointing": True, "workdir": str(wd)}
+    state = create_basic_train_state(jax.random.PRNGKey(conf["seed"] + 17), conf, model, (N, N), create_cnst_lr_schedule(conf))
+
+    def move(path, a):          # dyadic offsets; running variances stay positive
+        name = str(path[-1])
+        d = r.randint(1, 9, size=a.shape) / 8.0 if "var" in name else r.randint(-8, 9, size=a.shape) / 8.0
+        return a + jnp.asarray(d, a.dtype)
+    params = jax.tree_util.tree_map_with_path(move, state.params)
+    has_bs = state.batch_stats is not None and len(jax.tree_util.tree_leaves(state.batch_stats)) > 0
+    bstats = jax.tree_util.tree_map_with_path(move, state.batch_stats) if has_bs else state.batch_stats
+    state = state.replace(step=c["step"], params=params, batch_stats=bstats)
+    checkpoint_save(state, dict(conf), wd)
+    with contextlib.redirect_stdout(io.StringIO()):
+        out, variables = only_apply(dict(conf), model, {"image": x, "label": x})
+    shutil.rmtree(wd, ignore_errors=True)
+    res = {"has_batch_stats": bool(has_bs)}
+    res["params"] = trees_bit_equal(jax.tree_util.tree_map(np.asarray, params), jax.tree_util.tree_map(np.asarray, variables["params"]))
+    res["batch_stats"] = None
+    if has_bs:
+        res["batch_stats"] = trees_bit_equal(jax.tree_util.tree_map(np.asarray, bstats),
+                                             jax.tree_util.tree_map(np.asarray, variables["batch_stats"]))
+    sv = {"params": params, "batch_stats": bstats} if has_bs else {"params": params}
+    m = (n // b) * b
+    exp = np.asarray(model.apply(sv, x[:m], train=False, mutable=False))
+    got = np.asarray(out)
+    res["out_shape"] = [list(got.shape), list(exp.shape)]
+    res["out_err"] = float(np.max(np.abs(got - exp)) / max(1.0, float(np.max(np.abs(exp))))) if got.shape == exp.shape else None
+    return res
+
+
+def check_only_apply(ctx):
+    archs = ["ConvBNNet", "ResNet"] if ctx.quick else ["ConvBNNet", "ResNet", "UNet", "DnCNNNet"] * 3
+    for arch in archs:
+        c = only_apply_case(ctx.rng, arch)
+        ctx.count("only_apply-from-checkpoint", c)
+        try:
+            o = run_only_apply_case(c)
+        except Exception as e:     # noqa: BLE001
+            ctx.violation("only_apply", "only_apply from a checkpoint raises", c, observed=f"{type(e).__name__}: {e}"[:300])
+            continue
+        if o["params"] or o["batch_stats"]:
+            ctx.violation("only_apply", "only_apply(variables=None, checkpointing=True) does not use exactly the saved params and batch_stats",
+                          c, expected="bit-identical params and batch_stats of the checkpointed state", observed=o,
+                          oracle="C20_restore_latest")
+        elif o["out_err"] is None or o["out_err"] > 1e-5:
+            ctx.violation("only_apply", "only_apply output differs from the model applied with the saved variables", c,
+                          expected="model.apply(saved variables, images, train=False)", observed=o, oracle="C20_restore_latest")
+
+
 def check_trainer_resume(ctx):
     """Real BasicFlaxTrainer: train, then construct a new trainer on the same workdir."""
     from scico import flax as sflax
@@ -508,6 +614,7 @@ def run(ctx: Ctx):
     check_iterate(ctx)
     check_variables(ctx)
     check_checkpoints(ctx)
+    check_only_apply(ctx)
     check_trainer_resume(ctx)
     ctx.notes.append("Orbax ran offline (real CheckpointManager, scratch under build/C20)")
 
@@ -519,6 +626,10 @@ def replay(ctx: Ctx, rec):
         if "arch" not in c:
             return False
         o = run_flax_case(c)
+        if "skip" in o:
+            return True
+        if o["net_out"] == o["received"] and o["out"] != c["shape"]:
+            return False
         if "error" in o or not o["data_equal"] or not o["dtype_equal"] or o["kwargs"] != {"train": False, "mutable": False}:
             return False
         return eval_cases("C20_replay", "flax_case_ok", [f"({nl(c['shape'])}, {nl(o['received'])}, {nl(o['net_out'])}, {nl(o['out'])})"]) == []
@@ -542,6 +653,12 @@ def replay(ctx: Ctx, rec):
             return trees_bit_equal(v, roundtrip_variables(v, "replay")) is None
         except Exception:     # noqa: BLE001
             return False
+    if unit == "only_apply":
+        try:
+            o = run_only_apply_case(c)
+        except Exception:     # noqa: BLE001
+            return False
+        return not o["params"] and not o["batch_stats"] and o["out_err"] is not None and o["out_err"] <= 1e-5
     if unit == "checkpoint" and "steps" in c:
         o = run_ckpt_case(c, "replay")
         if o["diff_vs_last"] is not None:
